@@ -31,6 +31,9 @@ pub enum Case {
     Translated { lang: String, words: Vec<W> },
     /// a word-free line: identical observation in every language
     WordFree { text: String },
+    /// a phrase whose wording differs between the languages beyond single words: (language, the
+    /// line in that language, its English counterpart)
+    Pair { lang: String, line: String, en: String },
     /// an operator word of `lang` against the operator symbol
     OpWord { lang: String, word: String, op: char, form: u8 },
 }
@@ -147,6 +150,59 @@ fn parse_date_print(lang: &str, out: &str) -> Option<(i64, i64, Option<i64>)> {
         None => None,
     };
     Some((d, m, y))
+}
+
+fn relate(calc: &smartcalc::SmartCalc, lang: &str, tl: &str, te: &str) -> Verdict {
+    let a = obs::eval(calc, lang, tl);
+    let b = obs::eval(calc, "en", te);
+    let mut v = Verdict { input: format!("[{}] {}", lang, tl), class: "translation-compared", compared: true, expected: format!("[en] {} -> {}", te, b.brief()), observed: a.brief(), evals: 2, ..Default::default() };
+    if let Run::Panic(p) = &a {
+        v.violation = Some(format!("panic: {}", p.message));
+        v.site = Some(p.site.clone());
+        return v;
+    }
+    let (sa, sb) = match (a.single(), b.single()) {
+        (Some(x), Some(y)) => (x.clone(), y.clone()),
+        _ => {
+            v.violation = Some("not one slot".into());
+            return v;
+        }
+    };
+    match (&sa, &sb) {
+        (Slot::Ok { val: va, out: oa }, Slot::Ok { val: vb, out: ob }) => {
+            if !obs::val_close(va, vb, 1e-12) {
+                v.violation = Some("the translated line has a different value than its English counterpart".into());
+                return v;
+            }
+            // printed with the language's own words
+            match va {
+                Val::Duration(_) => {
+                    let (pa, pb) = (parse_duration_print(lang, oa), parse_duration_print("en", ob));
+                    if pa.is_none() || pa != pb {
+                        v.violation = Some(format!("the duration is not printed with the language's own unit words (parts {:?} vs English {:?})", pa, pb));
+                    }
+                }
+                Val::Date { .. } => {
+                    let (pa, pb) = (parse_date_print(lang, oa), parse_date_print("en", ob));
+                    if pa.is_none() || pa != pb {
+                        v.violation = Some(format!("the date is not printed with the language's own month names (fields {:?} vs English {:?})", pa, pb));
+                    }
+                }
+                _ => {
+                    if oa != ob {
+                        v.violation = Some("printed forms differ".into());
+                    }
+                }
+            }
+        }
+        (_, Slot::Ok { .. }) => v.violation = Some("the translated line does not evaluate although its English counterpart does".into()),
+        _ => {
+            // the English counterpart itself does not evaluate: nothing to relate
+            v.class = "not-evaluable";
+            v.compared = false;
+        }
+    }
+    v
 }
 
 impl Prop for C19 {
@@ -343,6 +399,58 @@ impl Prop for C19 {
                 }
             },
         ));
+        {
+            let langs = langs.clone();
+            f.push(Family::new(
+                "duration-lists-all",
+                Mode::Full,
+                "every duration list of 2..=6 parts whose units are a subsequence of (year, month, week, day, hour, minute, second), written largest-first and smallest-first, part i with count i+1; alone, added to '15 <December> 2020', and added to '11:30': against the English counterpart (a language's combine rules are its own configuration data)",
+                move |ch| {
+                    let l = ch.pick(&langs).clone();
+                    let order: [u64; 7] = [4, 3, 2, 1, 7, 6, 5];
+                    let mut ids = Vec::new();
+                    for id in order {
+                        if ch.flag() {
+                            ids.push(id);
+                        }
+                    }
+                    if ids.len() < 2 || ids.len() > 6 {
+                        return None;
+                    }
+                    if ch.flag() {
+                        ids.reverse();
+                    }
+                    let mut words = match ch.choose(3) {
+                        0 => vec![],
+                        1 => vec![lit("15"), W::Month(12, 0), lit("2020"), lit("+")],
+                        _ => vec![lit("11:30"), lit("+")],
+                    };
+                    let on_time = matches!(words.first(), Some(W::Lit(t)) if t == "11:30");
+                    if on_time && ids.iter().any(|id| [4, 3, 2, 1].contains(id)) {
+                        return None; // a clock time plus whole days is not a statement of any property
+                    }
+                    for (i, id) in ids.iter().enumerate() {
+                        words.push(lit(&(i + 2).to_string()));
+                        words.push(W::Const(*id, 0));
+                    }
+                    Some(Case::Translated { lang: l, words })
+                },
+            ));
+        }
+        f.push(Family::new(
+            "between-phrases",
+            Mode::Full,
+            "the difference phrase, whose wording is not word-by-word: tr 'A B arası' against en 'A to B' for all ordered pairs of the times [0:00, 10:00, 13:45, 23:59] and of the dates [1/2/2021, 15/3/2021, 31/12/1999] (numeric, so only the phrase differs): same duration, printed with the language's unit words",
+            move |ch| {
+                let times = ["0:00", "10:00", "13:45", "23:59"];
+                let dates = ["1/2/2021", "15/3/2021", "31/12/1999"];
+                let (a, b) = if ch.flag() { (*ch.pick(&times), *ch.pick(&times)) } else { (*ch.pick(&dates), *ch.pick(&dates)) };
+                if !spec().languages.iter().any(|l| l == "tr") {
+                    return None;
+                }
+                Some(Case::Pair { lang: "tr".into(), line: format!("{} {} arası", a, b), en: format!("{} to {}", a, b) })
+            },
+        ));
         f.push(Family::new(
             "operator-word-synonyms",
             Mode::Full,
@@ -476,57 +584,9 @@ impl Prop for C19 {
                         return Verdict { input: format!("{:?}", words), class: "untranslatable", ..Default::default() };
                     }
                 };
-                let a = obs::eval(calc, lang, &tl);
-                let b = obs::eval(calc, "en", &te);
-                let mut v = Verdict { input: format!("[{}] {}", lang, tl), class: "translation-compared", compared: true, expected: format!("[en] {} -> {}", te, b.brief()), observed: a.brief(), evals: 2, ..Default::default() };
-                if let Run::Panic(p) = &a {
-                    v.violation = Some(format!("panic: {}", p.message));
-                    v.site = Some(p.site.clone());
-                    return v;
-                }
-                let (sa, sb) = match (a.single(), b.single()) {
-                    (Some(x), Some(y)) => (x.clone(), y.clone()),
-                    _ => {
-                        v.violation = Some("not one slot".into());
-                        return v;
-                    }
-                };
-                match (&sa, &sb) {
-                    (Slot::Ok { val: va, out: oa }, Slot::Ok { val: vb, out: ob }) => {
-                        if !obs::val_close(va, vb, 1e-12) {
-                            v.violation = Some("the translated line has a different value than its English counterpart".into());
-                            return v;
-                        }
-                        // printed with the language's own words
-                        match va {
-                            Val::Duration(_) => {
-                                let (pa, pb) = (parse_duration_print(lang, oa), parse_duration_print("en", ob));
-                                if pa.is_none() || pa != pb {
-                                    v.violation = Some(format!("the duration is not printed with the language's own unit words (parts {:?} vs English {:?})", pa, pb));
-                                }
-                            }
-                            Val::Date { .. } => {
-                                let (pa, pb) = (parse_date_print(lang, oa), parse_date_print("en", ob));
-                                if pa.is_none() || pa != pb {
-                                    v.violation = Some(format!("the date is not printed with the language's own month names (fields {:?} vs English {:?})", pa, pb));
-                                }
-                            }
-                            _ => {
-                                if oa != ob {
-                                    v.violation = Some("printed forms differ".into());
-                                }
-                            }
-                        }
-                    }
-                    (_, Slot::Ok { .. }) => v.violation = Some("the translated line does not evaluate although its English counterpart does".into()),
-                    _ => {
-                        // the English counterpart itself does not evaluate: nothing to relate
-                        v.class = "not-evaluable";
-                        v.compared = false;
-                    }
-                }
-                v
+                relate(calc, lang, &tl, &te)
             }
+            Case::Pair { lang, line, en } => relate(calc, lang, line, en),
         }
     }
 
